@@ -19,6 +19,10 @@ pub struct C08Case
     pub cross_fs: bool,
     /// restrict to exactly this plan (hand-written regression inputs)
     pub only_plan: Option<String>,
+    /// one more fault-free run with an unusual temporary directory: 0 none, 1 a name that is not valid UTF-8,
+    /// 2 a name with blanks and non-ASCII letters, 3 a path of about 900 bytes
+    #[serde(default)]
+    pub odd_tmpdir: u8,
 }
 
 fn is_scratch(p: &str) -> bool
@@ -260,6 +264,39 @@ pub fn check(case: &C08Case) -> CaseOutcome
         }
         judge(&mut o, &tree, &files, &fr, "cross-fs", true, &mut seen);
     }
+    if case.odd_tmpdir != 0 && case.only_plan.is_none() && o.deviations.is_empty()
+    {
+        // no injection: the temporary directory itself is unusual (the run may fail, but then it says so and leaves nothing)
+        use std::os::unix::ffi::OsStrExt;
+        let holder = Sandbox::new();
+        let name: Vec<u8> = match case.odd_tmpdir
+        {
+            1 => b"tmp-\xff\xfe-caf\xe9".to_vec(),
+            2 => "tmp dir with blanks \u{e9}\u{4e2d}".as_bytes().to_vec(),
+            _ => vec![b'x'; 200],
+        };
+        let mut dir = holder.root.join(std::ffi::OsStr::from_bytes(&name));
+        if case.odd_tmpdir >= 3
+        {
+            for _ in 0..3
+            {
+                dir = dir.join(std::ffi::OsStr::from_bytes(&name));
+            }
+        }
+        if std::fs::create_dir_all(&dir).is_ok()
+        {
+            let fr = fault_run(&tree, false, None, Some(dir.clone()));
+            o.evals += 1;
+            o.class(&format!("unusual-tmpdir-{}", case.odd_tmpdir));
+            // a run that could not update a file here must not report success: compare with the files
+            let untouched = files.iter().any(|(rel, orig)| fr.after.get(rel) == Some(orig) && r.after.get(rel) != Some(orig));
+            if untouched && fr.run.exit.success()
+            {
+                o.fail("success-reported-despite-unusable-tmpdir", format!("TMPDIR {:?}: a file that needs references was left untouched, yet the run exited 0:\n{}", dir, fr.run.output_tail()));
+            }
+            judge(&mut o, &tree, &files, &fr, "unusual temporary directory", false, &mut seen);
+        }
+    }
     o.nontrivial = false;
     o.sample = Some(json!({
         "files": files.iter().map(|f| json!({"path": f.0, "bytes": f.1.len()})).collect::<Vec<_>>(),
@@ -276,12 +313,14 @@ pub fn strategy() -> BoxedStrategy<C08Case>
         sized_tree(2, 6, 3, false, None),
         vec(vec((any::<u16>(), any::<u8>()), 2..=3), 0..10),
         prop_oneof![2 => Just(false), 1 => Just(true)],
+        prop_oneof![3 => Just(0u8), 1 => 1u8..=3],
     )
-        .prop_map(|(tree, multi, cross_fs)| C08Case {
+        .prop_map(|(tree, multi, cross_fs, odd_tmpdir)| C08Case {
             tree,
             multi,
             cross_fs,
             only_plan: None,
+            odd_tmpdir,
         })
         .boxed()
 }
@@ -290,7 +329,7 @@ pub fn run(env: &Env, rec: &Recorder) -> (String, Vec<&'static str>)
 {
     pbt_opts(env, rec, "faults", env.cases(120, 4000), 40, &strategy, &check);
     (
-        "trees of 2-6 small source files (subset needing insertions), both styles, cache on/off; per tree ALL single faults on the write path (temporary-file creation, every write incl. the final flush, the rename; each applicable errno, and short writes), a persistent write failure starting at every scratch-file write (ENOSPC/EIO/EINVAL/ENOSYS/EOPNOTSUPP/EDQUOT), plus up to 10 generated 2-3-fault plans, plus one and two stop signals (SIGTERM/SIGINT) at every write-path operation, each on a fresh copy, plus (1 in 3 trees) a real cross-filesystem TMPDIR (project on tmpfs, TMPDIR on ext4) with no injection. Oracle: write-path failure => exit != 0; exit 0 => printed count = tokens in the files and a following fault-free --check passes; normal exit without injected unlink failure => no breadlog-*.tmp left in TMPDIR. Non-trivial = distinct (tree, plan) where the failure left one file untouched while another file was updated".to_string(),
+        "trees of 2-6 small source files (subset needing insertions), both styles, cache on/off; per tree ALL single faults on the write path (temporary-file creation, every write incl. the final flush, the rename; each applicable errno, and short writes), a persistent write failure starting at every scratch-file write (ENOSPC/EIO/EINVAL/ENOSYS/EOPNOTSUPP/EDQUOT), plus up to 10 generated 2-3-fault plans, plus one and two stop signals (SIGTERM/SIGINT) at every write-path operation, each on a fresh copy, plus (1 in 3 trees) a real cross-filesystem TMPDIR (project on tmpfs, TMPDIR on ext4) with no injection, plus (1 in 4 trees) a fault-free run whose TMPDIR has an unusual name (not valid UTF-8; blanks and non-ASCII letters; a path of about 800 bytes). Oracle: write-path failure => exit != 0; exit 0 => printed count = tokens in the files and a following fault-free --check passes; normal exit without injected unlink failure => no breadlog-*.tmp left in TMPDIR. Non-trivial = distinct (tree, plan) where the failure left one file untouched while another file was updated".to_string(),
         vec!["faults injected at libc call boundaries via LD_PRELOAD", "the cross-filesystem case relies on /dev/shm (tmpfs) and /verif/.build (disk) being different filesystems; the evidence counts how often rename really failed with EXDEV"],
     )
 }
